@@ -59,7 +59,8 @@ struct RegSpec {
 enum NodeSpec {
     Port,
     Reg(RegSpec),
-    Integer(usize),
+    /// pValue, pValueCopy*
+    Integer(usize, Vec<usize>),
     Command(usize, i64),
 }
 
@@ -89,6 +90,7 @@ enum Op {
     PortRead(usize, i64, usize),
     PortWrite(usize, i64, Vec<u8>),
     ClearCache,
+    Address(usize),
 }
 
 #[derive(Clone, Debug)]
@@ -146,7 +148,7 @@ fn node_str(n: &NodeSpec) -> String {
             list_str(&r.invs),
             r.port
         ),
-        NodeSpec::Integer(pv) => format!("G/{pv}"),
+        NodeSpec::Integer(pv, cs) => format!("G/{pv}/{}", list_str(cs)),
         NodeSpec::Command(pv, cv) => format!("C/{pv}/{cv}"),
     }
 }
@@ -186,6 +188,7 @@ fn op_str(op: &Op) -> String {
         Op::PortRead(n, a, l) => format!("pr/{n}/{a}/{l}"),
         Op::PortWrite(n, a, d) => format!("pw/{n}/{a}/{}", hex(d)),
         Op::ClearCache => "cc".into(),
+        Op::Address(n) => format!("a/{n}"),
     }
 }
 
@@ -226,7 +229,7 @@ fn p_node(s: &str, group: Option<usize>) -> NodeSpec {
     let f: Vec<&str> = s.split('/').collect();
     match f[0] {
         "P" => NodeSpec::Port,
-        "G" => NodeSpec::Integer(f[1].parse().unwrap()),
+        "G" => NodeSpec::Integer(f[1].parse().unwrap(), p_list(f.get(2).copied().unwrap_or("-"), ',', |x| x.parse().unwrap())),
         "C" => NodeSpec::Command(f[1].parse().unwrap(), f[2].parse().unwrap()),
         "R" => NodeSpec::Reg(RegSpec {
             kind: p_kind(f[1]),
@@ -291,6 +294,7 @@ fn p_op(s: &str) -> Op {
         "pr" => Op::PortRead(f[1].parse().unwrap(), f[2].parse().unwrap(), f[3].parse().unwrap()),
         "pw" => Op::PortWrite(f[1].parse().unwrap(), f[2].parse().unwrap(), unhex(f[3])),
         "cc" => Op::ClearCache,
+        "a" => Op::Address(f[1].parse().unwrap()),
         _ => panic!("bad op {s}"),
     }
 }
@@ -355,7 +359,13 @@ fn xml_of(nodes: &[NodeSpec]) -> String {
     for (i, n) in nodes.iter().enumerate() {
         match n {
             NodeSpec::Port => s += &format!("<Port Name=\"N{i}\"></Port>\n"),
-            NodeSpec::Integer(pv) => s += &format!("<Integer Name=\"N{i}\"><pValue>N{pv}</pValue></Integer>\n"),
+            NodeSpec::Integer(pv, cs) => {
+                s += &format!("<Integer Name=\"N{i}\"><pValue>N{pv}</pValue>");
+                for c in cs {
+                    s += &format!("<pValueCopy>N{c}</pValueCopy>");
+                }
+                s += "</Integer>\n";
+            }
             NodeSpec::Command(pv, cv) => s += &format!("<Command Name=\"N{i}\"><pValue>N{pv}</pValue><CommandValue>{cv}</CommandValue></Command>\n"),
             NodeSpec::Reg(r) => {
                 if let Some(gid) = r.group {
@@ -618,6 +628,7 @@ fn run_op<S: CacheStore>(nodes: &[NodeSpec], ids: &[NodeId], store: &DefaultNode
                 cx.clear_cache();
                 Out::Unit
             }
+            Op::Address(n) => Out::Int(ids[*n].as_iregister_kind(store).ok_or_else(invalid_node)?.address(dev, store, cx)?),
         })
     });
     match r {
@@ -671,16 +682,39 @@ fn effective_invs(store: &DefaultNodeStore, nid: NodeId) -> Option<Vec<usize>> {
 
 // ---------------------------------------------------------------- Declared (mirror of the Lean predicate; tied through `c04 decl`)
 
-fn may_overlap(w: usize, rw: &RegSpec, t: usize, rt: &RegSpec) -> bool {
+/// values a selector node can have as far as its kind tells (mirror of `selRange`)
+fn sel_range(nodes: &[NodeSpec], s: usize) -> Option<(i128, i128)> {
+    match nodes.get(s)? {
+        NodeSpec::Reg(RegSpec { kind: Kind::Int { signed: false, .. }, len, .. }) if matches!(len, 1 | 2 | 4) => Some((0, (1i128 << (8 * len)) - 1)),
+        NodeSpec::Reg(RegSpec { kind: Kind::Int { signed: true, .. }, len, .. }) if matches!(len, 1 | 2 | 4 | 8) => Some((-(1i128 << (8 * len - 1)), (1i128 << (8 * len - 1)) - 1)),
+        _ => None,
+    }
+}
+
+/// address hull `[lo, hi)` of a register (mirror of `hull`)
+fn hull(nodes: &[NodeSpec], r: &RegSpec) -> Option<(i128, i128)> {
+    match r.sel {
+        None => Some((r.base as i128, r.base as i128 + r.len as i128)),
+        Some((s, off)) => {
+            let (lo, hi) = sel_range(nodes, s)?;
+            let (x, y) = (lo * off as i128, hi * off as i128);
+            Some((r.base as i128 + x.min(y), r.base as i128 + x.max(y) + r.len as i128))
+        }
+    }
+}
+
+fn may_overlap(nodes: &[NodeSpec], w: usize, rw: &RegSpec, t: usize, rt: &RegSpec) -> bool {
     let dev_profile = profile() == "dev";
     if w == t {
         match rt.sel {
             None => false,
             Some((_, off)) => (off.unsigned_abs() as u128) < rt.len as u128 || !dev_profile,
         }
+    } else if (rw.sel.is_some() || rt.sel.is_some()) && !dev_profile {
+        true
     } else {
-        match (rw.sel, rt.sel) {
-            (None, None) => overlaps(rw.base as i128, rw.len as i128, rt.base as i128, rt.len as i128),
+        match (hull(nodes, rw), hull(nodes, rt)) {
+            (Some((a, b)), Some((c, d))) => a < d && c < b,
             _ => true,
         }
     }
@@ -691,7 +725,7 @@ fn needed_pairs(nodes: &[NodeSpec]) -> Vec<(usize, usize)> {
     for (w, nw) in nodes.iter().enumerate() {
         for (t, nt) in nodes.iter().enumerate() {
             if let (NodeSpec::Reg(rw), NodeSpec::Reg(rt)) = (nw, nt) {
-                if rt.mode != Mode::NC && may_overlap(w, rw, t, rt) {
+                if rt.mode != Mode::NC && may_overlap(nodes, w, rw, t, rt) {
                     v.push((w, t));
                 }
             }
@@ -717,7 +751,7 @@ fn port_declared(nodes: &[NodeSpec], pn: usize) -> bool {
 // ---------------------------------------------------------------- generator
 
 fn int_kind(n: &NodeSpec) -> bool {
-    matches!(n, NodeSpec::Reg(RegSpec { kind: Kind::Int { .. } | Kind::Masked { .. }, .. }) | NodeSpec::Integer(_))
+    matches!(n, NodeSpec::Reg(RegSpec { kind: Kind::Int { .. } | Kind::Masked { .. }, .. }) | NodeSpec::Integer(..))
 }
 
 /// any node except a FloatReg: `NodeId::value::<i64>` on a float node converts `f64 as i64`,
@@ -850,7 +884,13 @@ fn gen_case(rng: &mut Rng, undeclared: bool, thorough: bool) -> Case {
     for _ in 0..rng.below(4) {
         let cands: Vec<usize> = (0..nodes.len()).filter(|i| int_kind(&nodes[*i])).collect();
         let pv = if cands.is_empty() || rng.chance(1, 15) { pick_non_float(rng, &nodes) } else { *rng.pick(&cands) };
-        nodes.push(NodeSpec::Integer(pv));
+        let mut copies = vec![];
+        if !cands.is_empty() && rng.chance(1, 3) {
+            for _ in 0..rng.range(1, 2) {
+                copies.push(if rng.chance(1, 12) { pick_non_float(rng, &nodes) } else { *rng.pick(&cands) });
+            }
+        }
+        nodes.push(NodeSpec::Integer(pv, copies));
     }
     for _ in 0..rng.below(3) {
         let cands: Vec<usize> = (0..nodes.len()).filter(|i| int_kind(&nodes[*i])).collect();
@@ -932,7 +972,8 @@ fn gen_case(rng: &mut Rng, undeclared: bool, thorough: bool) -> Case {
                 let l = rng.range(1, 4) as usize;
                 ops.push(Op::PortWrite(0, rng.below(n_mem as u64) as i64, rng.bytes(l)));
             }
-            82..=83 => ops.push(Op::ClearCache),
+            82 => ops.push(Op::ClearCache),
+            83 => ops.push(Op::Address(*rng.pick(&regs))),
             84 | 96 | 97 => {
                 // selector switching: the same register read at two addresses, interleaved
                 let sel_regs: Vec<usize> = regs.iter().copied().filter(|i| matches!(&nodes[*i], NodeSpec::Reg(r) if r.sel.is_some())).collect();
@@ -997,7 +1038,7 @@ fn resolve<'a>(nodes: &'a [NodeSpec], mut n: usize) -> Option<&'a RegSpec> {
     for _ in 0..nodes.len() + 1 {
         match &nodes[n] {
             NodeSpec::Reg(r) => return Some(r),
-            NodeSpec::Integer(pv) => n = *pv,
+            NodeSpec::Integer(pv, _) => n = *pv,
             _ => return None,
         }
     }
@@ -1114,6 +1155,12 @@ fn classify_graph(nodes: &[NodeSpec]) -> Vec<&'static str> {
     if regs.iter().any(|(_, r)| r.group.is_some()) {
         v.push("graph:struct-entries");
     }
+    if nodes.iter().any(|n| matches!(n, NodeSpec::Integer(_, cs) if !cs.is_empty())) {
+        v.push("graph:integer-pValueCopy");
+    }
+    if nodes.iter().any(|n| matches!(n, NodeSpec::Command(..))) {
+        v.push("graph:command");
+    }
     if regs.iter().any(|(i, r)| regs.iter().any(|(j, q)| i != j && r.sel.is_none() && q.sel.is_none() && overlaps(r.base as i128, r.len as i128, q.base as i128, q.len as i128))) {
         v.push("graph:static-overlap");
     }
@@ -1203,6 +1250,7 @@ fn do_case(rep: &mut Report, case: &Case, src: &str, replay: Value) {
             Op::PortRead(..) => "port.read",
             Op::PortWrite(..) => "port.write",
             Op::ClearCache => "clear_cache",
+            Op::Address(_) => "reg.address",
         };
         let res = match out {
             Out::Err(e) => format!("err-{e}"),
@@ -1213,60 +1261,20 @@ fn do_case(rep: &mut Report, case: &Case, src: &str, replay: Value) {
     }
 
     // ---- property oracle (implementation vs implementation)
-    if decl && hist_ok {
-        let mut bad: Option<(Value, String)> = None;
-        if rc.outs != ru.outs {
-            let i = rc.outs.iter().zip(ru.outs.iter()).position(|(a, b)| a != b).unwrap_or(rc.outs.len().min(ru.outs.len()));
-            let op = case.ops.get(i).map(op_str).unwrap_or_default();
-            let wa = writer_kind(&eff, &case.ops, i);
-            bad = Some((
-                json!({"kind": "result-differs", "cause": wa}),
-                format!("op #{i} `{op}`: cached run returned {} but uncached run returned {}", rc.outs.get(i).map_or("-".into(), out_str), ru.outs.get(i).map_or("-".into(), out_str)),
-            ));
-        } else if rc.mem != ru.mem {
-            bad = Some((json!({"kind": "final-image-differs", "cause": writer_kind(&eff, &case.ops, case.ops.len())}), format!("final device image differs: cached {} uncached {}", hex(&rc.mem), hex(&ru.mem))));
-        } else if !log_sub(&rc.log, &ru.log) {
-            bad = Some((json!({"kind": "log-not-sub"}), format!("cached access log is not the uncached log minus successful reads: cached {} uncached {}", log_str(&rc.log), log_str(&ru.log))));
-        }
-        if let Some((sig, what)) = bad {
-            rep.violation(sig, &what, replay.clone());
-        }
+    let mut counts: Vec<&'static str> = vec![];
+    let found = oracle(&eff, case, &rc, &ru, &mut counts);
+    for c in counts {
+        rep.count(c);
     }
-    // NoCache registers always reach the device; own write visible (cached run alone, any graph)
-    for (i, op) in case.ops.iter().enumerate().take(rc.outs.len()) {
-        let before = if i == 0 { 0 } else { rc.marks[i - 1] };
-        let grown = &rc.log[before..rc.marks[i]];
-        let ok = !matches!(rc.outs[i], Out::Err(_) | Out::Panic);
-        if let Op::Value(n) | Op::Read(n, _) = op {
-            if let NodeSpec::Reg(r) = &eff[*n] {
-                if r.mode == Mode::NC && ok {
-                    let hit = grown.last().map_or(false, |a| !a.write && a.ok && a.len as u64 == r.len);
-                    if !hit {
-                        rep.violation(json!({"kind": "nocache-served-without-device-read"}), &format!("op #{i} `{}` on a NoCache register returned without reading the device", op_str(op)), replay.clone());
-                    }
-                    rep.count("oracle:nocache-read-checked");
-                }
-            }
-        }
-        // own write visible: set_value(v) on a static int register, next op value() of the same node
-        if let (Op::SetValue(n, ValS::Int(v)), Some(Op::Value(m))) = (op, case.ops.get(i + 1)) {
-            if n == m && ok && i + 1 < rc.outs.len() {
-                if let NodeSpec::Reg(r) = &eff[*n] {
-                    let fits = int_range(r).map_or(false, |(lo, hi)| (*v as i128) >= lo && (*v as i128) <= hi);
-                    if r.sel.is_none() && fits {
-                        if let Out::Int(got) = &rc.outs[i + 1] {
-                            rep.count("oracle:own-write-checked");
-                            if got != v {
-                                rep.violation(
-                                    json!({"kind": "own-write-hidden", "mode": format!("{:?}", r.mode)}),
-                                    &format!("op #{i} `{}` succeeded but the next value() returned {got} (mode {:?})", op_str(op), r.mode),
-                                    replay.clone(),
-                                );
-                            }
-                        }
-                    }
-                }
-            }
+    let mut seen_kinds: Vec<String> = vec![];
+    for (sig, what) in found {
+        let kind = sig["kind"].as_str().unwrap_or("").to_string();
+        // minimise the first few failing histories of each kind (delta debugging on the op list)
+        let small = if !seen_kinds.contains(&kind) && rep.n_violations < 12 { shrink(case, &kind) } else { None };
+        seen_kinds.push(kind);
+        match small {
+            Some((c2, what2)) => rep.violation(sig, &format!("{what2} [minimised from {} to {} ops]", case.ops.len(), c2.ops.len()), case_to_json(&c2)),
+            None => rep.violation(sig, &what, replay.clone()),
         }
     }
 
@@ -1280,6 +1288,114 @@ fn do_case(rep: &mut Report, case: &Case, src: &str, replay: Value) {
     rep.expect(format!("c04 default {p} {g} {d} {o}"), ac);
     rep.expect(format!("c04 sink {p} {g} {d} {o}"), au);
     rep.expect(format!("c04 decl {p} {g}"), format!("{} 0:{}", decl as u8, port_declared(&eff, 0) as u8));
+}
+
+/// The property oracle on the implementation's own outputs (cached vs uncached twin).
+fn oracle(eff: &[NodeSpec], case: &Case, rc: &RunResult, ru: &RunResult, counts: &mut Vec<&'static str>) -> Vec<(Value, String)> {
+    let mut out: Vec<(Value, String)> = vec![];
+    let decl = declared(eff);
+    let hist_ok = case.ops.iter().all(|op| !matches!(op, Op::PortWrite(..)) || port_declared(eff, 0));
+    if decl && hist_ok {
+        let mut bad: Option<(Value, String)> = None;
+        if rc.outs != ru.outs {
+            let i = rc.outs.iter().zip(ru.outs.iter()).position(|(a, b)| a != b).unwrap_or(rc.outs.len().min(ru.outs.len()));
+            let op = case.ops.get(i).map(op_str).unwrap_or_default();
+            let wa = writer_kind(eff, &case.ops, i);
+            bad = Some((
+                json!({"kind": "result-differs", "cause": wa}),
+                format!("op #{i} `{op}`: cached run returned {} but uncached run returned {}", rc.outs.get(i).map_or("-".into(), out_str), ru.outs.get(i).map_or("-".into(), out_str)),
+            ));
+        } else if rc.mem != ru.mem {
+            bad = Some((json!({"kind": "final-image-differs", "cause": writer_kind(eff, &case.ops, case.ops.len())}), format!("final device image differs: cached {} uncached {}", hex(&rc.mem), hex(&ru.mem))));
+        } else if !log_sub(&rc.log, &ru.log) {
+            bad = Some((json!({"kind": "log-not-sub"}), format!("cached access log is not the uncached log minus successful reads: cached {} uncached {}", log_str(&rc.log), log_str(&ru.log))));
+        }
+        if let Some((sig, what)) = bad {
+            out.push((sig, what));
+        }
+    }
+    // NoCache registers always reach the device; own write visible (cached run alone, any graph)
+    for (i, op) in case.ops.iter().enumerate().take(rc.outs.len()) {
+        let before = if i == 0 { 0 } else { rc.marks[i - 1] };
+        let grown = &rc.log[before..rc.marks[i]];
+        let ok = !matches!(rc.outs[i], Out::Err(_) | Out::Panic);
+        if let Op::Value(n) | Op::Read(n, _) = op {
+            if let NodeSpec::Reg(r) = &eff[*n] {
+                if r.mode == Mode::NC && ok {
+                    let hit = grown.last().map_or(false, |a| !a.write && a.ok && a.len as u64 == r.len);
+                    if !hit {
+                        out.push((json!({"kind": "nocache-served-without-device-read"}), format!("op #{i} `{}` on a NoCache register returned without reading the device", op_str(op))));
+                    }
+                    counts.push("oracle:nocache-read-checked");
+                }
+            }
+        }
+        // own write visible: set_value(v) on a static int register, next op value() of the same node
+        if let (Op::SetValue(n, ValS::Int(v)), Some(Op::Value(m))) = (op, case.ops.get(i + 1)) {
+            if n == m && ok && i + 1 < rc.outs.len() {
+                if let NodeSpec::Reg(r) = &eff[*n] {
+                    let fits = int_range(r).map_or(false, |(lo, hi)| (*v as i128) >= lo && (*v as i128) <= hi);
+                    if r.sel.is_none() && fits {
+                        if let Out::Int(got) = &rc.outs[i + 1] {
+                            counts.push("oracle:own-write-checked");
+                            if got != v {
+                                out.push((
+                                    json!({"kind": "own-write-hidden", "mode": format!("{:?}", r.mode)}),
+                                    format!("op #{i} `{}` succeeded but the next value() returned {got} (mode {:?})", op_str(op), r.mode),
+                                ));
+                            }
+                        }
+                    }
+                }
+            }
+        }
+    }
+
+    out
+}
+
+/// Build both contexts, run the history, return the oracle's findings (no reporting).
+fn findings_of(case: &Case) -> Vec<(Value, String)> {
+    let xml = xml_of(&case.nodes);
+    let built_c = catch(|| GenApiBuilder::<DefaultNodeStore>::default().build(&xml));
+    let built_u = catch(|| GenApiBuilder::<DefaultNodeStore>::default().no_cache().build(&xml));
+    let ((_, store_c, mut cx_c), (_, store_u, mut cx_u)) = match (built_c, built_u) {
+        (Ok(Ok(c)), Ok(Ok(u))) => (c, u),
+        _ => return vec![],
+    };
+    let ids_c: Vec<NodeId> = (0..case.nodes.len()).map(|i| store_c.id_by_name(format!("N{i}")).expect("node present")).collect();
+    let ids_u: Vec<NodeId> = (0..case.nodes.len()).map(|i| store_u.id_by_name(format!("N{i}")).expect("node present")).collect();
+    let mut eff = case.nodes.clone();
+    for (i, n) in eff.iter_mut().enumerate() {
+        if let NodeSpec::Reg(r) = n {
+            r.invs = effective_invs(&store_c, ids_c[i]).unwrap_or_default();
+        }
+    }
+    let rc = run_hist(&eff, &ids_c, &store_c, &mut cx_c, &case.dev, &case.ops);
+    let ru = run_hist(&eff, &ids_u, &store_u, &mut cx_u, &case.dev, &case.ops);
+    oracle(&eff, case, &rc, &ru, &mut vec![])
+}
+
+/// Delta debugging on the history: drop operations while a finding of the same kind remains.
+fn shrink(case: &Case, kind: &str) -> Option<(Case, String)> {
+    let mut cur = case.clone();
+    let mut what: Option<String> = None;
+    let mut progress = true;
+    while progress {
+        progress = false;
+        let mut i = cur.ops.len();
+        while i > 0 {
+            i -= 1;
+            let mut cand = cur.clone();
+            cand.ops.remove(i);
+            if let Some((_, w)) = findings_of(&cand).into_iter().find(|(s, _)| s["kind"] == kind) {
+                cur = cand;
+                what = Some(w);
+                progress = true;
+            }
+        }
+    }
+    what.map(|w| (cur, w))
 }
 
 /// coarse cause class for a differing result (part of the violation signature)
